@@ -505,28 +505,32 @@ def bounded_printing(ctx, b):
     vals += [k * 10 + d for k in range(0, 12) for d in (0.001, 0.004, 0.0049999, 0.005, 0.0051, 0.994, 0.995, 0.9951)]
     for v in vals:
         for unit in UnitEnum:
-            s = Size(v, unit)
-            printed = str(s)
-            exp = ref_print(v, unit)
-            ok = printed == exp and s.to_xml_attribute() == exp
-            detail = None if ok else {"value": v, "unit": unit.value, "printed": printed, "expected": exp}
-            if ok:
+            def one(v=v, unit=unit):
+                s = Size(v, unit)
+                printed = str(s)
+                exp = ref_print(v, unit)
+                if not (printed == exp and s.to_xml_attribute() == exp):
+                    return False, {"value": v, "unit": unit.value, "printed": printed, "expected": exp}
                 back = Size.from_string(printed)
                 ok = back == Size(round(v, 2), unit) and str(back) == printed
-                detail = None if ok else {"value": v, "printed": printed, "reparsed": repr(back)}
-            b.case((v, unit.value), ok, detail, sample={"value": v, "unit": unit.value, "printed": printed})
+                return ok, None if ok else {"value": v, "printed": printed, "reparsed": repr(back)}
+            b.guard((v, unit.value), one, sample={"value": v, "unit": unit.value})
     # composite to_xml_attribute
     for _ in range(50):
         a, bb, cc, d = (Size(rng.choice(vals), UnitEnum.PERCENT) for _ in range(4))
+        b.guard(("composite", a.value, bb.value, cc.value, d.value), lambda: _composite(a, bb, cc, d),
+                sample={"sizes": [a.value, bb.value, cc.value, d.value]})
+
+
+def _composite(a, bb, cc, d):
+    if True:
         ok = Point(a, bb).to_xml_attribute() == f"{ref_print(a.value, a.unit)} {ref_print(bb.value, bb.unit)}" and \
             Stretch(a, bb).to_xml_attribute() == f"{ref_print(a.value, a.unit)} {ref_print(bb.value, bb.unit)}" and \
             Padding(a, bb, cc, d).to_xml_attribute() == " ".join(ref_print(x.value, x.unit) for x in (a, d, bb, cc))
-        b.case(("composite", a.value, bb.value, cc.value, d.value), ok,
-               {"sizes": [a.value, bb.value, cc.value, d.value]}, sample={"point": Point(a, bb).to_xml_attribute()})
         p2 = Padding.from_xml_attribute(Padding(a, bb, cc, d).to_xml_attribute())
         r = lambda s_: Size(round(s_.value, 2), s_.unit)
         ok2 = (p2.before, p2.after, p2.start, p2.end) == (r(a), r(bb), r(cc), r(d))
-        b.case(("padding-roundtrip", a.value, bb.value, cc.value, d.value), ok2, {"padding": repr(p2)})
+        return bool(ok and ok2), {"sizes": [a.value, bb.value, cc.value, d.value], "reparsed": repr(p2)}
 
 
 def bounded_parser_strings(ctx, b):
